@@ -52,6 +52,9 @@ func (e *Engine) declareUF(name, sig string) {
 	if extraSeen[name] {
 		return
 	}
+	if _, inPrelude := e.Funcs[name]; inPrelude {
+		return
+	}
 	extraSeen[name] = true
 	// sig like "(Int) Bool"
 	extraDecls = append(extraDecls, fmt.Sprintf("(declare-fun %s %s)", name, sig))
@@ -225,6 +228,10 @@ func (x *Exec) applyContract(fr *Frame, callee *ssa.Function, con *Contract, arg
 		x.oblige(fnKey(fr.fn), "call-pre", key+"."+cl.Label+"@"+x.posKey(fr.fn, pos), "precondition of "+key+": "+cl.Expr, cl.Tags, x.pos(pos), bc, t)
 	}
 	// havoc modifies
+	if con.NoFrame && len(con.Modifies) == 0 {
+		// no frame is promised: the caller forgets the whole heap
+		x.havocAll(st, site+": call to "+key+" whose contract promises no frame")
+	}
 	x.applyModifies(con, env, pre, st, key)
 	for _, m := range con.Modifies {
 		if !strings.HasPrefix(m.Comp, "G_calls_") && m.Comp != "G_held" {
